@@ -193,6 +193,21 @@ def exCfg : Cfg := { tbl := exTbl, cps := [⟨1, 1⟩], win := 4 }
 def exPeers : List Peer := [{ id := 1, cand := true }, { id := 2, cand := true }]
 
 example : (run exCfg (init exCfg exPeers) [.newPeer 1, .headers 1 [1, 2], .headers 1 [3, 4]]).log = [0, 1, 3, 4] := by decide
+
+/-! The store fall-back reads the store AS IT IS NOW.  `resolve` has no memory: it is a function of
+the current in-memory list and the current log, and `C01_ctx_resolves_own_branch` holds in every
+reachable state - in particular after "re-anchor, validate through the store, reorganise,
+re-anchor": sync peer 1 is lost (the list is cut down to the tip `2`), a header is refused, peer 2's
+heavier branch `[3, 4]` replaces `2`, peer 2 is lost (the list is `[4]` only).  The ancestor at the
+reorganised height 2 is the new branch's `3`, not the abandoned `2`. -/
+def exReanchor : List Ev :=
+  [.newPeer 1, .headers 1 [1], .headers 1 [2], .donePeer 1, .headers 2 [5], .headers 2 [3, 4], .donePeer 2]
+
+example : (run exCfg (init exCfg exPeers) exReanchor).log = [0, 1, 3, 4] ∧
+    (run exCfg (init exCfg exPeers) exReanchor).hl = [⟨4, 3⟩] := by decide
+example : resolve (run exCfg (init exCfg exPeers) exReanchor).hl (run exCfg (init exCfg exPeers) exReanchor).log 2 = some 3 := by decide
+example : (run exCfg (init exCfg exPeers) (exReanchor.take 4)).hl = [⟨2, 2⟩] ∧
+    resolve (run exCfg (init exCfg exPeers) (exReanchor.take 4)).hl (run exCfg (init exCfg exPeers) (exReanchor.take 4)).log 1 = some 1 := by decide
 example : (run exCfg (init exCfg exPeers) [.newPeer 1, .headers 1 [1, 2], .headers 2 [5]]).log = [0, 1] := by decide
 example : (run exCfg (init exCfg exPeers) [.newPeer 1, .headersFailWrite 1 [1, 2]]).log = [0] ∧
     (run exCfg (init exCfg exPeers) [.newPeer 1, .headersFailWrite 1 [1, 2]]).ncp = some ⟨1, 1⟩ := by decide
